@@ -234,7 +234,11 @@ func (w scriptWaiter) tr(kind string, rs kube.ResourceList) {
 		return
 	}
 	for _, r := range rs {
-		w.api.traceEv(kind + " " + r.Name)
+		key := r.Name
+		if r.Mapping != nil {
+			key = "namespaces/" + r.Namespace + "/" + r.Mapping.Resource.Resource + "/" + r.Name
+		}
+		w.api.traceEv(kind + " " + key)
 	}
 }
 
